@@ -36,7 +36,7 @@ import tempfile
 from concurrent.futures import ThreadPoolExecutor
 from datetime import datetime, timedelta, timezone
 
-from . import c14_gen, common
+from . import c14_gen, common, edgevals
 from .c14_gen import data_dir, fingerprint, legacy_prints, listing  # noqa: F401 -- shared with the child
 from .common import Check, sx
 from .evutil import BASE
@@ -68,6 +68,11 @@ RULE = ("large legacy buckets first (quick: one of 10-22 k events, one of 5-7.5 
         "sizes 512..65536, auto_vacuum, header fields, free pages, extra table / column / index, missing index; 31 "
         "fixed cases + on 45 % of the random stores, 40 % of the session stores, half of the large buckets; expected "
         "content stays the API dump taken before the rewrite, legacy bytes and mtime must not change.  "
+        "Round 5b: legacy bucket data and event data with text that is not well-formed Unicode or sits at the edge of a TEXT "
+        "cell (lone high / lone low surrogate = a title cut in the middle of an emoji, astral code points, NUL, U+2028; as values "
+        "and keys; in the fixed corpus, the random stores and the large buckets); when a construction RAISES, the next start "
+        "(fresh interpreter, same directory) is observed too: inside the precondition it must not present a store that lacks "
+        "legacy content as complete.  "
         "Second stream: detect_db_files / check_for_migration on generated listings.")
 
 ERR = {"KeyError": 4, "ValueError": 5, "IndexError": 6, "AttributeError": 7, "TypeError": 8, "IntegrityError": 9}
@@ -119,6 +124,16 @@ NAMES = [None, None, "", "nm", "Ünï näme"]
 BDATA = [None, {}, {"k": "v"}, {"k": {"n": [1, 2, {"z": None}]}, "ü": "é"}, {"a": 1.5, "b": True}]
 EDATA = [{}, {"app": "a"}, {"app": "b", "title": "x"}, {"n": 1}, {"n": 1.0}, {"n": True}, {"u": "ünï中😀"},
          {"nested": {"l": [1, [2, 3], {"k": None}]}}, {"title": "q'uote\"s \\ and\nnewline"}, {"big": "y" * 300}]
+# round 5 (fix6-data): text that is not well-formed Unicode or sits at the edge of what a TEXT cell takes - a window title cut
+# in the middle of an emoji holds a LONE surrogate (high alone / low alone; never a high directly followed by a low: that
+# pair is outside the domain, notes/agents/JSON.md), astral code points, NUL, U+2028 - as values and as keys, in bucket data and
+# in event data.  Python, ASCII-escaped JSON and the legacy store carry them; established on the unchanged tree: the legacy
+# store returns them `==` and the migration copies them losslessly (notes/agents/C14.md "Round 5 (fix6-data)").
+EDGE_EDATA = [dict(d) for d in edgevals.EDGE_DATA]
+EDGE_BDATA = [{"title": edgevals.EDGE_STRINGS[0]}, {edgevals.EDGE_STRINGS[1]: [edgevals.EDGE_STRINGS[2], {"k": edgevals.EDGE_STRINGS[9]}]},
+              {"sep": edgevals.EDGE_STRINGS[11], "astral": edgevals.EDGE_STRINGS[8]}]
+BDATA += EDGE_BDATA[:2]
+EDATA += EDGE_EDATA[:3] + EDGE_EDATA[5:8]
 CREATED = ["2020-01-01T00:00:00+00:00", "2020-01-01T05:00:00+02:00", "2021-06-30T23:59:59.123456+00:00",
            "2019-12-31T19:00:00-05:00", "2020-01-01T00:00:00", "2020-03-04T05:06:07Z", "2020-03-04 05:06:07+00:00",
            "2020-03-04T05:06:07.5+00:00"]
@@ -604,6 +619,21 @@ def corpus(rng):
         out.append(mk_case("dotless-other-profile", t, mine, stray=["peewee-sqlite" + ("" if t else "-testing") + "/"]))
         # legacy file written before bucketmodel had its datastr column: PeeweeStorage.__init__ (auto_migrate)
         # upgrades the schema in place, so the bytes change while the rows do not (recorded, see oracle)
+        # cut titles: the event with the lone surrogate sits in the SECOND of three buckets, between ordinary events (a copy that
+        # fails on it leaves that bucket short and the third bucket missing), bucket data holds such text too
+        cut = [[BASE + i * SEC, SEC, x, 0] for i, x in enumerate([{"app": "chat", "title": "Team chat"}, EDGE_EDATA[0], {"app": "chat", "title": "after"}])]
+        out.append(mk_case("cut-title-second-bucket", t, [{"testing": t, "ops": [
+            create("aw-watcher-afk_host", "afkstatus", "aw-watcher-afk", "host"), create("aw-watcher-window_host", "currentwindow", "aw-watcher-window", "host"),
+            create("aw-watcher-web_host", "web.tab.current", "aw-watcher-web", "host", da=EDGE_BDATA[2]),
+            ["insert_many", "aw-watcher-afk_host", events(rng, 3)], ["insert_many", "aw-watcher-window_host", cut],
+            ["insert_many", "aw-watcher-web_host", events(rng, 2)]]}]))
+        out.append(mk_case("edge-text-everywhere", t, [{"testing": t, "ops": [create(f"e{i}", da=d) for i, d in enumerate(EDGE_BDATA)]
+                                                        + [["insert_many", "e0", [[BASE + i * SEC, i, x, 0] for i, x in enumerate(EDGE_EDATA)]],
+                                                           ["insert", "e1", [BASE, SEC, EDGE_EDATA[1], 120]], ["insert", "e2", [BASE, 0, EDGE_EDATA[7], 0]],
+                                                           ["replace", "e0", 0, [BASE + SEC, 5, EDGE_EDATA[2], 0]],
+                                                           ["update", "e1", None, None, None, "renamed", EDGE_BDATA[0]]]}]))
+        out.append(mk_case("edge-text-rewritten", t, [{"testing": t, "raw": [["rebuild"], ["event_json", "utf8", 1, 0], ["bucket_json", "spaced"]],
+                                                       "ops": [create("b", da=EDGE_BDATA[1]), ["insert_many", "b", cut + events(rng, 3)]]}]))
         out.append(mk_case("old-schema-legacy", t, [{"testing": t, "old_schema": True,
                                                       "ops": [create("old", na="nm"), create("old2"),
                                                               ["insert_many", "old", events(rng, 5)]]}]))
@@ -700,6 +730,11 @@ def run_cases(cases, tmp, procs=12):
         runs[i]["mig"] = r
         runs[i]["after"] = legacy_prints(runs[i]["xdg"])
         runs[i]["listing_after"] = listing(runs[i]["xdg"])
+        if r.get("exc") is not None and cases[i].get("session") is None:
+            # the construction RAISED: what does the next start of the program (a fresh interpreter, same directory) get?
+            runs[i]["reopen"] = child("migrate", {"xdg": runs[i]["xdg"], "testing": cases[i]["new_testing"],
+                                                  "custom": cases[i]["custom"]}, tmp)
+            runs[i]["listing_reopen"] = listing(runs[i]["xdg"])
         if any(older_schema(s) and s["testing"] == cases[i]["new_testing"] for s in cases[i]["stores"]):
             runs[i]["legacy_after_dump"] = child("dump", {"xdg": runs[i]["xdg"], "testing": cases[i]["new_testing"]}, tmp)
 
@@ -953,6 +988,7 @@ def oracle(case, run):
     if m["exc"] is not None:
         if pre:
             bad.append(("C14:exception", f"SqliteStorage(testing={t}) raised {m['exc']}: {m.get('exc_text')}"))
+            bad += partial_store(case, run, mine)
         return bad
     new_b = dict((k, v) for k, v in m["buckets"])
     new_e = dict((k, v) for k, v in m["events"])
@@ -1014,6 +1050,49 @@ def oracle(case, run):
             bad.append(("C14:cross-profile", f"new store of profile testing={t} holds {list(new_b)} although no legacy "
                                              f"file of that profile existed (listing {run['listing_before']})"))
     return bad
+
+
+def store_gaps(dump, new):
+    """what of the legacy dump the store `new` (buckets / events as dumped by the child) does not hold"""
+    new_b = dict((k, v) for k, v in new["buckets"])
+    new_e = dict((k, v) for k, v in new["events"])
+    old_e = dict((k, v) for k, v in dump["events"])
+    out = []
+    for k, meta in dump["buckets"]:
+        if k not in new_b:
+            out.append(f"bucket {k!r} ({len(old_e[k])} events) is missing")
+        elif sorted(canon_ev(e) for e in old_e[k]) != sorted(canon_ev(e) for e in new_e[k]):
+            out.append(f"bucket {k!r} holds {len(new_e[k])} of {len(old_e[k])} events")
+        elif new_b[k] != meta:
+            out.append(f"bucket {k!r}: metadata differs")
+    return out
+
+
+def partial_store(case, run, mine):
+    """The first creation of the default store RAISED in the middle of the migration (inside the precondition, where the
+    unchanged tree never raises).  The statement is about the store that exists afterwards: the program is started
+    again - a fresh interpreter constructs SqliteStorage(testing) on the same directory (run["reopen"]) - and that
+    construction must not hand out a store that lacks legacy content as if it were complete.  What the unchanged tree does
+    when a construction raises for a reason OUTSIDE the precondition (a dot-less `peewee-sqlite[-testing]` entry in the
+    data directory: IndexError out of check_for_migration; a `created` text the legacy reader cannot parse): the v1 file
+    has been created by then, the next start finds it, skips the migration and returns normally with whatever the first
+    attempt had copied - it never re-migrates.  So after a failed first creation nothing repairs the store: a partial
+    store presented as complete is the permanent outcome, and inside the precondition it is a violation of its own."""
+    ro = run.get("reopen")
+    if ro is None or not mine:
+        return []
+    t = case["new_testing"]
+    if ro["exc"] is not None:
+        return []                # the next start fails too: nothing is presented as complete (C14:exception stands)
+    gaps = store_gaps(mine[0]["dump"], ro)
+    if not gaps:
+        return []                # the second start migrated (again) and the store is complete
+    ran = any("Migrating database" in x for x in ro.get("migration_log", []))
+    return [("C14:partial-store-never-re-migrated",
+             f"after the first SqliteStorage(testing={t}) raised {run['mig']['exc']} in the middle of the migration, the next start "
+             f"(fresh interpreter, same directory: {run.get('listing_reopen')}) constructs the store without an error"
+             f"{' and' if ran else ', does NOT run the migration again (the v1 file exists) and'} presents a partial store as "
+             f"complete: " + "; ".join(gaps[:4]))]
 
 
 # ---------------------------------------------------------------------------
@@ -1198,6 +1277,15 @@ def evaluate(ck, top_cases, top_runs, have_driver, record=True):
         ck.count("buckets-migrated", len(m.get("raw_buckets") or []))
         if m["exc"]:
             ck.count("constructor-raised:" + m["exc"])
+            ro = r.get("reopen")
+            if ro is not None:
+                # (outside the precondition - dot-less entry in the data dir - the unchanged tree raises IndexError and the next
+                # start skips the migration: recorded, not judged)
+                mine_ = [s_ for s_ in r["built"] if s_["testing"] == c["new_testing"]]
+                gaps = store_gaps(mine_[0]["dump"], ro) if mine_ and ro["exc"] is None else []
+                ck.count("next start after a construction that raised: " + ("raises again" if ro["exc"] is not None else
+                         "returns a store that lacks legacy content (never re-migrated)" if gaps else "returns a complete store")
+                         + ("" if in_precondition(c, r) else " [outside the precondition]"))
         if m["exc"] is None and m["committed_events"] != n_events:
             ck.count("uncommitted-tail-after-constructor")
             ck.coverage.setdefault("uncommitted_tail_example",
@@ -1334,8 +1422,11 @@ def replay(path):
         bad = oracle_case(case, runs[0])
         print(json.dumps({"listing_before": runs[0]["listing_before"], "listing_after": runs[0]["listing_after"],
                           "new_buckets": runs[0]["mig"].get("buckets"), "exc": runs[0]["mig"]["exc"],
+                          "next_start": None if runs[0].get("reopen") is None else
+                          {"exc": runs[0]["reopen"]["exc"], "buckets": [k for k, _ in runs[0]["reopen"].get("buckets", [])],
+                           "events_per_bucket": {k: len(v) for k, v in runs[0]["reopen"].get("events", [])}},
                           "n_events_new": len(runs[0]["mig"].get("raw_events") or []),
-                          "violations": bad}, indent=1, ensure_ascii=False, default=str))
+                          "violations": bad}, indent=1, ensure_ascii=False, default=str).encode("utf-8", "backslashreplace").decode("utf-8"))
         return 1 if bad else 0
     finally:
         shutil.rmtree(tmp, ignore_errors=True)
